@@ -226,7 +226,7 @@ class StandardPovmt(StandardQTomography):
         self,
         povm: Povm,
         num_sums: List[int],
-        seed_or_genrator: Union[int, np.random.Generator] = None,
+        seed_or_generator: Union[int, np.random.Generator] = None,
     ) -> List[List[Tuple[int, np.ndarray]]]:
         tmp_experiment = self._experiment.copy()
 
@@ -238,7 +238,7 @@ class StandardPovmt(StandardQTomography):
             target_index = self._get_target_index(tmp_experiment, schedule_index)
             tmp_experiment.povms[target_index] = povm
 
-        stream = to_stream(seed_or_genrator)
+        stream = to_stream(seed_or_generator)
         empi_dists_sequence_tmp = tmp_experiment.generate_empi_dists_sequence(
             list_num_sums_tmp, seed_or_generator=stream
         )
